@@ -26,6 +26,15 @@
 (*                        repaired in /repo by 5d6a096 (the oracle counts readers at timestamp 0   *)
 (*                        and skips the cleanup while one is active, which is what Dev = {}        *)
 (*                        models); the gating configurations therefore run with Dev = {}.          *)
+(*   "LateReaderUnprotected"  a reader that begins at an index the read mark has already reached     *)
+(*                        (an earlier transaction with the same read timestamp has finished, e.g. a  *)
+(*                        View) is ignored by WaterMark.tryAdvance, which only looks above           *)
+(*                        DoneUntil: the mark moves past the active reader and its conflict history   *)
+(*                        is pruned.  Not foreseen by the first version of this abstraction; found   *)
+(*                        by the binding (a TLC history with filler commits run on the real DB was    *)
+(*                        rejected by TxnPropTrace), then added here (MC_Oracle_asis2.cfg, a reopened *)
+(*                        DB, violates Serializable) and repaired in /repo by 8b8eb0d (the oracle bounds the       *)
+(*                        pruning by the oldest active read timestamp = what Dev = {} models).        *)
 (* Ghost variables (hidden from nothing; they are the refinement witnesses): clog (successful      *)
 (* commits in order), rlog (values each transaction read from the store), cts, hist.              *)
 EXTENDS Integers, Sequences, FiniteSets, TLC, Json
@@ -39,15 +48,16 @@ CONSTANTS Txns,       \* transaction ids
           AllowClose, \* whether DB.Close may happen
           WithScan,   \* whether transactions iterate (Txn.NewIterator)
           Dev,        \* set of enabled deviations
+          StartTs,    \* first commit timestamp: 1 = fresh DB; > 1 = a reopened DB (initCommitState(StartTs - 1))
           MaxHist     \* generation: history length at which a behaviour is printed (0: never)
 
-VARIABLES nextTs, committed, lastCleanup, pendTx, lastIdx, rDone, store, closed,
+VARIABLES nextTs, committed, lastCleanup, pendTx, lastIdx, rDone, store, closed, late,
           st, rts, reads, wr, cnt, nops,
           clog, rlog, cts, hist
-vars == <<nextTs, committed, lastCleanup, pendTx, lastIdx, rDone, store, closed,
+vars == <<nextTs, committed, lastCleanup, pendTx, lastIdx, rDone, store, closed, late,
           st, rts, reads, wr, cnt, nops, clog, rlog, cts, hist>>
 \* hist is the only variable that does not influence behaviour
-view == <<nextTs, committed, lastCleanup, pendTx, lastIdx, rDone, store, closed,
+view == <<nextTs, committed, lastCleanup, pendTx, lastIdx, rDone, store, closed, late,
           st, rts, reads, wr, cnt, nops, clog, rlog, cts>>
 
 TOMB == <<>>          \* tombstone / nothing (a tuple, like every value)
@@ -76,14 +86,16 @@ AbsLookup(log, k, ts) ==
 
 Log(rec) == hist' = IF Len(hist) < MaxHist THEN Append(hist, rec) ELSE hist
 
-Init == /\ nextTs = 1 /\ committed = {} /\ lastCleanup = 0 /\ pendTx = {} /\ lastIdx = 0 /\ rDone = 0
-        /\ store = {} /\ closed = FALSE
+Init == /\ nextTs = StartTs /\ committed = {} /\ lastCleanup = StartTs - 1 /\ pendTx = {}
+        /\ lastIdx = StartTs - 1 /\ rDone = StartTs - 1
+        /\ store = {} /\ closed = FALSE /\ late = {}
         /\ st = [t \in Txns |-> "idle"] /\ rts = [t \in Txns |-> 0] /\ reads = [t \in Txns |-> {}]
         /\ wr = [t \in Txns |-> EmptyF] /\ cnt = [t \in Txns |-> 1] /\ nops = [t \in Txns |-> 0]
         /\ clog = <<>> /\ rlog = [t \in Txns |-> {}] /\ cts = [t \in Txns |-> 0] /\ hist = <<>>
 
 \* ---- read mark (utils.WaterMark) abstraction
-Tracked(p, r) == {t \in p : ~("ReadMarkSkipsZero" \in Dev /\ r[t] = 0)}
+Tracked(p, r) == {t \in p : /\ ~("ReadMarkSkipsZero" \in Dev /\ r[t] = 0)
+                          /\ ~("LateReaderUnprotected" \in Dev /\ t \in late)}
 DoneUntil(p, r, last, old) ==
     LET tr  == Tracked(p, r)
         now == IF tr = {} THEN last ELSE Min({r[t] : t \in tr}) - 1
@@ -100,6 +112,8 @@ Begin(t) ==
           /\ pendTx' = pendTx \cup {t}
           /\ lastIdx' = newLast
           /\ rDone' = DoneUntil(pendTx \cup {t}, [rts EXCEPT ![t] = r], newLast, rDone)
+          \* the mark had already reached r (an earlier reader at r has finished): tryAdvance only looks above DoneUntil
+          /\ late' = IF "LateReaderUnprotected" \in Dev /\ r <= rDone /\ r > 0 THEN late \cup {t} ELSE late
     /\ st' = [st EXCEPT ![t] = "active"]
     /\ Log([op |-> "Begin", t |-> t, upd |-> IsUpdate(t)])
     /\ UNCHANGED <<nextTs, committed, lastCleanup, store, closed, reads, wr, cnt, nops, clog, rlog, cts>>
@@ -112,7 +126,7 @@ Get(t, k) ==
        ELSE /\ reads' = [reads EXCEPT ![t] = IF IsUpdate(t) THEN @ \cup {FP[k]} ELSE @]
             /\ rlog' = [rlog EXCEPT ![t] = @ \cup {<<k, Lookup(k, rts[t])>>}]
     /\ Log([op |-> "Get", t |-> t, k |-> k])
-    /\ UNCHANGED <<nextTs, committed, lastCleanup, pendTx, lastIdx, rDone, store, closed, st, rts, wr, cnt, clog, cts>>
+    /\ UNCHANGED <<nextTs, committed, lastCleanup, pendTx, lastIdx, rDone, store, closed, late, st, rts, wr, cnt, clog, cts>>
 
 \* Txn.NewIterator (forward, default options) run to the end: every yielded key -- own pending writes
 \* included -- is added to the read set (TxnIterator.advance -> addReadKey); keys that are absent from the
@@ -125,7 +139,7 @@ Scan(t) ==
        IN /\ reads' = [reads EXCEPT ![t] = IF IsUpdate(t) THEN @ \cup {FP[k] : k \in live} ELSE @]
           /\ rlog' = [rlog EXCEPT ![t] = @ \cup {<<k, Lookup(k, rts[t])>> : k \in live \ DOMAIN wr[t]}]
     /\ Log([op |-> "Scan", t |-> t])
-    /\ UNCHANGED <<nextTs, committed, lastCleanup, pendTx, lastIdx, rDone, store, closed, st, rts, wr, cnt, clog, cts>>
+    /\ UNCHANGED <<nextTs, committed, lastCleanup, pendTx, lastIdx, rDone, store, closed, late, st, rts, wr, cnt, clog, cts>>
 
 \* Txn.Set / Txn.Delete through modify(): checkSize first
 Write(t, k, del) ==
@@ -136,7 +150,7 @@ Write(t, k, del) ==
        ELSE /\ wr' = [wr EXCEPT ![t] = Upd(@, k, IF del THEN TOMB ELSE Val(t, nops[t]))]
             /\ cnt' = [cnt EXCEPT ![t] = IF MaxCount > 0 THEN @ + 1 ELSE @]
     /\ Log([op |-> IF del THEN "Del" ELSE "Set", t |-> t, k |-> k])
-    /\ UNCHANGED <<nextTs, committed, lastCleanup, pendTx, lastIdx, rDone, store, closed, st, rts, reads, clog, rlog, cts>>
+    /\ UNCHANGED <<nextTs, committed, lastCleanup, pendTx, lastIdx, rDone, store, closed, late, st, rts, reads, clog, rlog, cts>>
 
 \* oracle.doneRead + Discard bookkeeping
 DoneRead(t) ==
@@ -152,7 +166,7 @@ HasConflict(t) == \E c \in committed : c.ts > rts[t] /\ c.fps \cap reads[t] # {}
 \* Txn.Commit / CommitWith
 Commit(t) ==
     /\ st[t] = "active"
-    /\ Log([op |-> "Commit", t |-> t])
+    /\ Log([op |-> "Commit", t |-> t, c |-> (DOMAIN wr[t] # {} /\ HasConflict(t))])   \* c: lets the generator favour histories with conflicts
     /\ st' = [st EXCEPT ![t] = "done"]
     /\ IF DOMAIN wr[t] = {} \/ HasConflict(t)
        THEN \* nothing to write (returns nil) or ErrConflict; Discard runs doneRead
@@ -174,7 +188,7 @@ Commit(t) ==
                           /\ cts' = [cts EXCEPT ![t] = ts]
                           /\ reads' = [reads EXCEPT ![t] = {}] /\ wr' = [wr EXCEPT ![t] = EmptyF]
                           /\ UNCHANGED <<rts, rlog>>
-    /\ UNCHANGED <<lastIdx, closed, cnt, nops>>
+    /\ UNCHANGED <<lastIdx, closed, late, cnt, nops>>
 
 Discard(t) ==
     /\ st[t] = "active"
@@ -182,13 +196,13 @@ Discard(t) ==
     /\ DoneRead(t)
     /\ Forget(t)
     /\ Log([op |-> "Discard", t |-> t])
-    /\ UNCHANGED <<nextTs, committed, lastCleanup, lastIdx, store, closed, cnt, nops, clog, cts>>
+    /\ UNCHANGED <<nextTs, committed, lastCleanup, lastIdx, store, closed, late, cnt, nops, clog, cts>>
 
 Close ==
     /\ AllowClose /\ ~closed
     /\ closed' = TRUE
     /\ Log([op |-> "Close"])
-    /\ UNCHANGED <<nextTs, committed, lastCleanup, pendTx, lastIdx, rDone, store, st, rts, reads, wr, cnt, nops, clog, rlog, cts>>
+    /\ UNCHANGED <<nextTs, committed, lastCleanup, pendTx, lastIdx, rDone, store, late, st, rts, reads, wr, cnt, nops, clog, rlog, cts>>
 
 Next == \/ \E t \in Txns : Begin(t) \/ Commit(t) \/ Discard(t) \/ Scan(t)
         \/ \E t \in Txns, k \in Keys : Get(t, k) \/ Write(t, k, FALSE) \/ Write(t, k, TRUE)
@@ -204,7 +218,7 @@ StoreMatchesLog == \A k \in Keys, ts \in 0..nextTs : Lookup(k, ts) = AbsLookup(c
 Committed(t) == cts[t] > 0
 SerialReads(t) == \A r \in rlog[t] : Lookup(r[1], cts[t] - 1) = r[2]
 \* witness of the recorded deviation: only transactions begun at read timestamp 0 are exposed
-Witness(t) == "ReadMarkSkipsZero" \in Dev /\ rts[t] = 0
+Witness(t) == ("ReadMarkSkipsZero" \in Dev /\ rts[t] = 0) \/ ("LateReaderUnprotected" \in Dev /\ t \in late)
 Serializable == \A t \in Txns : Committed(t) => SerialReads(t)
 SerializableModuloKnown == \A t \in Txns : Committed(t) => (SerialReads(t) \/ Witness(t))
 
